@@ -13,7 +13,7 @@ mod verif_c14_cache {
     struct R(u8);
     impl Compound for R { fn load(_: AnyCache, _: &SharedString) -> Result<Self, BoxedError> { Ok(R(1)) } }
 
-    // @h name=c14_failed_reads_are_recorded tier=quick cap=3 timeout=600
+    // @h name=c14_failed_reads_are_recorded tier=quick cap=3 timeout=600 props=C14,C09
     #[kani::proof]
     #[kani::unwind(6)]
     fn c14_failed_reads_are_recorded() {
@@ -42,7 +42,7 @@ mod verif_c14_cache {
         const HOT_RELOADED: bool = false;
     }
 
-    // @h name=c14_nested_optout_records_into_outer tier=quick cap=2 timeout=900
+    // @h name=c14_nested_optout_records_into_outer tier=quick cap=2 timeout=900 props=C14
     #[kani::proof]
     #[kani::unwind(6)]
     fn c14_nested_optout_records_into_outer() {
